@@ -257,6 +257,11 @@ def pack_dataclass(spec: ValueSpec) -> Optional[Expression]:
             method_name, method_loc
         ) != method_loc and (
             spec.origin_type is not spec.builder.cls
+            # another specialisation of the generic class being built
+            or spec.builder.get_pack_method_name(
+                spec.builder.initial_type_args, spec.builder.format_name
+            )
+            != method_name
             or spec.builder.get_pack_method_name(
                 type_args=type_args,
                 format_name=spec.builder.format_name,
